@@ -133,6 +133,15 @@ func (w *World) Run(x *simkit.Ctx) {
 	thorough := x.Case.Tier == "thorough"
 	hfmode := x.CfgInt("hf", func(r *simkit.Rng) int { return r.Pick(4, 2, 2, 1, 1) })
 	nacc := x.CfgInt("accounts", func(r *simkit.Rng) int { return r.Range(3, 6) })
+	// crowd runs: more voters (and more distinct values of one parameter) than any list bound in the
+	// code (30 candidates per ballot / per stored ranking), with a scripted opening: everybody stakes
+	// a different amount, everybody votes a different value, a lock period later the voters with the
+	// least power vote again and leave
+	crowd := x.CfgInt("crowd", func(r *simkit.Rng) int { return r.Pick(9, 1) }) == 1
+	if crowd {
+		nacc = x.CfgInt("crowdsize", func(r *simkit.Rng) int { return r.Range(31, 40) })
+		hfmode = 0
+	}
 	ncand := x.CfgInt("cands", func(r *simkit.Rng) int { return r.Range(3, 6) })
 	public := x.CfgInt("public", func(r *simkit.Rng) int { return r.Pick(1, 1) }) == 1
 	vault := x.CfgInt("vault", func(r *simkit.Rng) int { return r.Pick(1, 1) })
@@ -222,7 +231,12 @@ func (w *World) Run(x *simkit.Ctx) {
 		if !e.boundary("genesis") {
 			return
 		}
-		gen := func(r *simkit.Rng) *simkit.Step { return e.genBlock(r, nblocks, txper, drops == 1) }
+		gen := func(r *simkit.Rng) *simkit.Step {
+			if crowd && e.blocks < 3 {
+				return e.crowdBlock(e.blocks)
+			}
+			return e.genBlock(r, nblocks, txper, drops == 1)
+		}
 		for {
 			st, idx := x.Next(gen)
 			if st == nil || x.Failed() {
@@ -240,6 +254,31 @@ func (w *World) Run(x *simkit.Ctx) {
 		}
 	})
 	x.Out.SimMs = int64(e.height) * 1000
+}
+
+// crowdBlock is the scripted opening of a crowd run.
+func (e *env) crowdBlock(k int) *simkit.Step {
+	n := len(e.accts)
+	switch k {
+	case 0:
+		st := &simkit.Step{Op: "block", V: 1, A: endCommit}
+		for a := 0; a < n; a++ {
+			st.X = append(st.X, simkit.Step{Op: "stake", A: a, V: int64(4 + a)})
+		}
+		return st
+	case 1:
+		st := &simkit.Step{Op: "block", V: 1, A: endCommit}
+		for a := 0; a < n; a++ {
+			st.X = append(st.X, simkit.Step{Op: "votedao", A: a, B: 2, C: 10 + a})
+		}
+		return st
+	}
+	d := e.sd
+	if e.vd > d {
+		d = e.vd
+	}
+	return &simkit.Step{Op: "block", V: int64(d + 1), A: endCommit, X: []simkit.Step{
+		{Op: "votedao", A: 0, B: 2, C: 10 + n}, {Op: "unstake", A: 1, V: 0}, {Op: "votedao", A: 2, B: 2, C: 10 + n - 1}}}
 }
 
 // peerID derives the i-th ordinary (secp256k1, 39-byte) producer id.
@@ -784,11 +823,17 @@ func (e *env) buildTx(ts *simkit.Step, w *model, bi *types.BlockHeaderInfo) *pen
 		}
 		return p
 	case "votedao":
-		if ts.B < 0 || ts.B >= len(daoIDs) || ts.C < 0 || ts.C >= 5 {
+		if ts.B < 0 || ts.B >= len(daoIDs) || ts.C < 0 || (ts.C >= 5 && (ts.C < 10 || daoIDs[ts.B] != "GASPRICE")) {
 			return nil
 		}
 		id := daoIDs[ts.B]
-		val := daoVals[id][ts.C]
+		var val string
+		if ts.C >= 10 {
+			val = fmt.Sprint(50000000000 + int64(ts.C)) // crowd runs: as many distinct valid values as voters
+			e.x.Probe("crowd-parameter-value")
+		} else {
+			val = daoVals[id][ts.C]
+		}
 		if val == "-5" && !e.negParam {
 			val = "1e3" // not a decimal number
 		}
@@ -813,7 +858,7 @@ func (e *env) buildTx(ts *simkit.Step, w *model, bi *types.BlockHeaderInfo) *pen
 			if w.ver < 2 {
 				return "not-supported-before-v2"
 			}
-			if ts.C >= 3 && val != "-5" {
+			if ts.C >= 3 && ts.C < 10 && val != "-5" {
 				return "invalid-value"
 			}
 			if val == "-5" {
